@@ -116,6 +116,9 @@ class Builder:
         if k in ('date', 'time', 'dt', 'dur', 'dec', 'dbl', 'uuid'):
             cls = {'date': P.Date, 'time': P.Time, 'dt': P.DateTime, 'dur': P.Duration, 'dec': P.Decimal,
                    'dbl': P.Double, 'uuid': P.Uuid}[k]
+            # ge / gt / le / lt for these kinds are outside the shared Lean universe (T3 only): {"rng": {"ge": <Val JSON>}}
+            for f, fv in (ty.get('rng') or {}).items():
+                kw[f] = self.to_native({'k': k, 'occ': occ()}, fv)
             return cls(**kw) if kw else cls
         if k == 'bytes':
             enc = ty.get('enc', 'base64')
@@ -465,7 +468,24 @@ CFG_DEFAULT = {'proto': 'json', 'validator': None, 'iw': True, 'cas': 'dict', 'p
 
 
 def cfg_key(cfg):
-    return (cfg['proto'], cfg['validator'], cfg['iw'], cfg['cas'], cfg['poly'])
+    k = (cfg['proto'], cfg['validator'], cfg['iw'], cfg['cas'], cfg['poly'])
+    if mp_opts(cfg) != (False, True):
+        k += ('raw=%s' % cfg['raw'], 'use_bin_type=%s' % cfg['bin'])
+    return k
+
+
+def mp_opts(cfg):
+    """MessagePackDocument(raw=, use_bin_type=): the constructor options that select the leaf handler table"""
+    return (bool(cfg.get('raw', False)), bool(cfg.get('bin', True)))
+
+
+def load_as_server(cfg, data):
+    """the document the protocol's own create_in_document hands to the decoder (MessagePackRpc passes `raw` to the
+    unpacker: with raw=True every str arrives as bytes; MessagePackDocument does not)"""
+    if cfg['proto'] == 'msgpackrpc' and mp_opts(cfg)[0]:
+        import msgpack
+        return msgpack.unpackb(data, raw=True, strict_map_key=False)
+    return load(cfg['proto'], data)
 
 
 def proto_class(name):
@@ -518,10 +538,13 @@ class Impl:
             from spyne.server import ServerBase
             pc = proto_class(cfg['proto'])
             cas = list if cfg['cas'] == 'list' else dict
+            kw = {}
+            if cfg['proto'].startswith('msgpack') and mp_opts(cfg) != (False, True):
+                kw = {'raw': mp_opts(cfg)[0], 'use_bin_type': mp_opts(cfg)[1]}
             app = Application([self.service], TNS, name='App',
                               in_protocol=pc(validator=cfg['validator'], ignore_wrappers=cfg['iw'], complex_as=cas,
-                                             polymorphic=cfg['poly']),
-                              out_protocol=pc(ignore_wrappers=cfg['iw'], complex_as=cas, polymorphic=cfg['poly']))
+                                             polymorphic=cfg['poly'], **kw),
+                              out_protocol=pc(ignore_wrappers=cfg['iw'], complex_as=cas, polymorphic=cfg['poly'], **kw))
             s = ServerBase(app)
             self.servers[k] = s
         return s
@@ -717,7 +740,9 @@ class Universe:
         # every class has at least one member of its own (spyne registers a subclass without own members
         # under its grandparent)
         for j in range(rng.choice([1, 2, 2, 3, 4])):
-            fields.append(['%s_f%d' % (name.lower(), n0 + j), self.gen_ty(depth - 1)])
+            # member names sort like they are declared (yaml.dump sorts mapping keys): f0..f9, fa, fb, ...
+            ix = n0 + j
+            fields.append(['%s_f%s' % (name.lower(), ix if ix < 10 else chr(ord('a') + ix - 10)), self.gen_ty(depth - 1)])
         cd = {'name': name, 'ns': TNS, 'base': base['name'] if base else None, 'fields': fields}
         self.classes.append(cd)
         self.by_name[name] = cd
@@ -1253,6 +1278,11 @@ def ref_response(cfg, method, ret_ty, d, U=None):
 # ===================================================================================== cases
 ALL_CFGS = [{'proto': p, 'validator': v, 'iw': iw, 'cas': cas, 'poly': False}
             for p in PROTOS for v in (None, 'soft') for iw in (True, False) for cas in ('dict', 'list')]
+# the MessagePack constructor matrix: (raw, use_bin_type) selects the leaf handler table (msgpack.py:94-98); the default
+# (False, True) is in ALL_CFGS. JsonDocument / YamlDocument have no constructor option that selects a handler table
+# (`from_serstr` is `from_unicode` always; YamlDocument(safe=False) selects the loader class, not a table).
+MP_EXTRA_CFGS = [{'proto': p, 'validator': v, 'iw': True, 'cas': 'dict', 'poly': False, 'raw': r, 'bin': b}
+                 for p in ('msgpack', 'msgpackrpc') for v in (None, 'soft') for (r, b) in ((True, False), (True, True), (False, False))]
 
 
 def strip_item(t):
@@ -1312,7 +1342,7 @@ class Case:
 GOOD_FACTS = {'occCount': 'perItem', 'mpNameAnyKey': True, 'nullComplexIsNone': True, 'repeatedScalarFault': True,
               'leafKindFault': True, 'boolCoerced': True, 'utf8Fault': True, 'jsonNullDateOk': True,
               'intFromFloat': True, 'nativeKindFault': True, 'binKindFault': True, 'rawBytesKindFault': True, 'nestedArrayOk': True, 'parseErrorsFault': True, 'binTextValidated': True, 'missingBodyFault': True,
-              'guardPathLocal': True, 'fileFormValidated': True}
+              'guardPathLocal': True, 'fileFormValidated': True, 'mpBoolPassThrough': [], 'tableUtf8Fault': True}
 
 FACT_WHAT = {
     'occCount': 'D09: _doc_to_object counts one occurrence per key, not per item: 3 items pass max_occurs=2 and 2 items '
@@ -1350,6 +1380,11 @@ FACT_WHAT = {
                       'the caller\'s set instead of a copy): an object referenced from two sibling members is written once '
                       'and dropped the second time, an array that holds an object twice is written as null '
                       '(witness: Seg(start=p, end=p, more=[q, r, q]) as a JSON result)',
+    'mpBoolPassThrough': 'MessagePackDocument / MessagePackRpc constructed with the listed (raw, use_bin_type) read a Boolean with a '
+                         'pass-through handler: a str / number / list / map sent for a Boolean reaches user code, also under soft validation',
+    'tableUtf8Fault': 'MessagePackDocument(raw=True, use_bin_type=False) reads leaves with the from_bytes handlers: date_from_bytes & co '
+                      'decode bytes as UTF-8 outside any guard, undecodable bytes (b"\\xff\\xfe" for a Date) raise UnicodeDecodeError -> '
+                      'Server fault',
     'fileFormValidated': 'the object form of a File value is read by _doc_to_object without the validator of the protocol: '
                          'with validator=soft, {"f": {"name": 5}} hands File.Value.name = 5 (declared Unicode) to user code',
 }
@@ -1385,7 +1420,7 @@ FACT_WITNESS = {
     'missingBodyFault': ([['a', {'k': 'int', 'occ': occ()}]], {}, {'f': None}),
 }
 # switches measured by a probe of their own (replayed by name)
-PROBE_FACTS = ('guardPathLocal', 'fileFormValidated')
+PROBE_FACTS = ('guardPathLocal', 'fileFormValidated', 'mpBoolPassThrough', 'tableUtf8Fault')
 
 
 PARSE_WITNESSES = [('yaml', b'a: b: c'), ('yaml', b'\x00'), ('yaml', b'*alias'), ('yaml', b'!!python/object:os.system {}'),
@@ -1471,8 +1506,40 @@ def _probe_file():
     return bad
 
 
+MP_OPTS = [(False, True), (True, False), (True, True), (False, False)]        # (raw, use_bin_type), the default first
+BOOL_FOREIGN = ['x', 5, [1], {b'a': 1}, 1.5, b'yes']
+
+
+def _probe_mp_tables():
+    """the MessagePackDocument constructor matrix (raw, use_bin_type) under soft validation:
+    which settings read Date text from `bytes` (= the `_from_bytes_handlers` table is selected), which let a non-boolean
+    through for a Boolean, and whether undecodable bytes for a Date are a client fault with the bytes table"""
+    B = Builder()
+    impl = Impl(B, {'args': [['b', {'k': 'bool', 'occ': occ()}], ['d', {'k': 'date', 'occ': occ()}]], 'ret': {'k': 'int', 'occ': occ()}})
+    bytes_table, bool_pass, utf8_bad, obs = [], [], {}, {}
+    for raw, bn in MP_OPTS:
+        cfg = dict(CFG_DEFAULT, proto='msgpack', validator='soft', raw=raw, bin=bn)
+        r = impl.run(cfg, dump('msgpack', {b'f': {b'd': b'2020-01-02'}}))
+        if 'ok' in r['outcome']:
+            bytes_table.append([raw, bn])
+            r = impl.run(cfg, dump('msgpack', {b'f': {b'd': b'\xff\xfe'}}))
+            if 'fault' not in r['outcome']:
+                utf8_bad['raw=%s,use_bin_type=%s' % (raw, bn)] = r['outcome']
+        for w in BOOL_FOREIGN:
+            r = impl.run(cfg, dump('msgpack', {b'f': {b'b': w}}))
+            if 'fault' not in r['outcome']:
+                if [raw, bn] not in bool_pass:
+                    bool_pass.append([raw, bn])
+                obs.setdefault('raw=%s,use_bin_type=%s' % (raw, bn), {})[repr(w)] = dict(r['outcome'], what=r.get('leak'))
+    return bytes_table, bool_pass, utf8_bad, obs
+
+
 def measure_facts():
     f, obs = {}, {}
+    bt, bp, ub, bobs = _probe_mp_tables()
+    f['mpBytesTable'], obs['mpBytesTable'] = bt, bt
+    f['mpBoolPassThrough'], obs['mpBoolPassThrough'] = bp, bobs
+    f['tableUtf8Fault'], obs['tableUtf8Fault'] = ub == {}, ub
     o = _probe_alias()
     obs['guardPathLocal'] = o
     f['guardPathLocal'] = o == ALIAS_EXPECTED
@@ -1522,6 +1589,10 @@ def facts_lean(f):
     for k in ['mpNameAnyKey', 'nullComplexIsNone', 'repeatedScalarFault', 'leafKindFault', 'boolCoerced', 'utf8Fault',
               'jsonNullDateOk', 'intFromFloat', 'nativeKindFault', 'binKindFault', 'rawBytesKindFault', 'nestedArrayOk', 'binTextValidated', 'parseErrorsFault', 'missingBodyFault', 'guardPathLocal', 'fileFormValidated']:
         lines.append('  %s := %s' % (k, b(f[k])))
+    pl = lambda l: '[' + ', '.join('(%s, %s)' % (b(x), b(y)) for x, y in l) + ']'
+    lines.append('  mpBytesTable := %s' % pl(f['mpBytesTable']))
+    lines.append('  mpBoolPassThrough := %s' % pl(f['mpBoolPassThrough']))
+    lines.append('  tableUtf8Fault := %s' % b(f['tableUtf8Fault']))
     return ('-- GENERATED by harness/hierblock.py (T1) from /repo on every run. Do not edit.\n'
             'import SpyneModel.Hier\nnamespace SpyneModel.Generated\nopen SpyneModel SpyneModel.Hier\n\n'
             'def facts02 : Facts02 where\n' + '\n'.join(lines) + '\n\nend SpyneModel.Generated\n')
@@ -1533,6 +1604,7 @@ SWITCH_PROPS = {
     'jsonNullDateOk': {'C02', 'C05', 'C16', 'C04', 'C10'}, 'nestedArrayOk': {'C02', 'C16', 'C04', 'C05', 'C10'},
     'mpNameAnyKey': {'C02', 'C05', 'C10', 'C04'}, 'binTextValidated': {'C05'}, 'parseErrorsFault': {'C10'}, 'missingBodyFault': {'C04', 'C05', 'C10'},
     'guardPathLocal': {'C02'}, 'fileFormValidated': {'C04'},
+    'mpBoolPassThrough': {'C04', 'C05', 'C10'}, 'tableUtf8Fault': {'C04', 'C05', 'C10'},
 }
 
 
@@ -1545,10 +1617,13 @@ def t1(ctx):
         if f[k] != good and ctx.prop in SWITCH_PROPS.get(k, {'C04', 'C05', 'C10'}):
             if k in PROBE_FACTS:
                 ctx.hit('fact-bad:' + k)
+                wit = {'guardPathLocal': ALIAS_WITNESS, 'fileFormValidated': FILE_WITNESS_DOCS,
+                       'mpBoolPassThrough': 'f(b: Boolean) <- {b"f": {b"b": w}} for w in %r, validator=soft, every (raw, use_bin_type)' % (BOOL_FOREIGN,),
+                       'tableUtf8Fault': 'f(d: Date) <- {b"f": {b"d": b"\\xff\\xfe"}}, validator=soft, raw=True, use_bin_type=False'}[k]
                 ctx.finding('switch:%s=%s' % (k, f[k]), FACT_WHAT[k],
                             {'op': 'probe', 'fact': k, 'measured': f[k], 'observed': obs[k],
                              'expected': ALIAS_EXPECTED if k == 'guardPathLocal' else 'a Client fault for every document',
-                             'witness': ALIAS_WITNESS if k == 'guardPathLocal' else FILE_WITNESS_DOCS})
+                             'witness': wit})
                 continue
             args, cfg, doc = FACT_WITNESS[k][:3]
             ctx.hit('fact-bad:' + k)
@@ -2015,6 +2090,7 @@ def part_c02(ctx, ncases=None, seed_cases=True):
                      'doc': doc_to_json(doc), 'observed': r['outcome'], 'where': r.get('where'), 'stage': r.get('stage'),
                      'ret_ty': c.sig['ret'], 'returned': r.get('ret_val')})
     part_alias(ctx)
+    part_poly(ctx)
     part_codec(ctx)
     ctx.cov['rule'] = ('cases = generated class universes (depth <= 4, inheritance, wrapped arrays, repeated members, facets) x '
                        'conformant argument tuples (boundary biased, None at optional positions) x 32 configurations x key '
@@ -2330,7 +2406,11 @@ def replay(ctx, obj):
     print('replay of:', obj.get('what'))
     op = obj.get('op')
     if op == 'probe':
-        o = _probe_alias() if obj['fact'] == 'guardPathLocal' else _probe_file()
+        if obj['fact'] in ('mpBoolPassThrough', 'tableUtf8Fault'):
+            bt, bp, ub, bobs = _probe_mp_tables()
+            o = {'from_bytes table selected by (raw, use_bin_type)': bt, 'Boolean passed through': bobs, 'undecodable date bytes': ub}
+        else:
+            o = _probe_alias() if obj['fact'] == 'guardPathLocal' else _probe_file()
         print('witness :', json.dumps(obj.get('witness'))[:600])
         print('impl    :', o)
         print('expected:', obj.get('expected'))
@@ -2354,7 +2434,7 @@ def replay(ctx, obj):
             print('config:', cfg_key(cfg))
             print('bytes :', data[:400])
             print('impl  :', r['outcome'], r.get('where'))
-            body, _ = request_body(cfg, load(cfg['proto'], data))
+            body, _ = request_body(cfg, load_as_server(cfg, data))
             mty = file_model_ty(obj['ty'])
             if mty != obj['ty']:
                 # File members: the model reads their object form as the class FileValue (plain-bytes form: T3 only)
@@ -2410,6 +2490,16 @@ def replay(ctx, obj):
         r = impl.run(cfg, dump(cfg['proto'], doc))
         print('impl  :', r['outcome'], r.get('where'))
         return 0
+    if op == 'range':
+        c = FixedCase([['v', obj['ty']]])
+        cfg = obj['cfg']
+        r = c.impl.run(cfg, dump(cfg['proto'], json_to_doc(obj['doc'])))
+        print('type   :', obj['ty'])
+        print('value  :', obj['value'], '(UTC instant %s)' % _instant(obj['value']['dt']) if 'dt' in obj['value'] else '')
+        print('bytes  :', dump(cfg['proto'], json_to_doc(obj['doc']))[:300])
+        print('impl   :', r['outcome'], r.get('where'))
+        print('conforms (python oracle):', range_ok(obj['ty'], obj['value']))
+        return 0
     if op == 'verdicts':
         print('verdicts per configuration (recorded):', obj.get('verdicts'))
         print('python conforms:', conforms(obj['ty'], obj['args']))
@@ -2460,7 +2550,7 @@ def part_c04(ctx):
             args = c.gen_args(none_p=0.1)
             if args is None:
                 continue
-            for cfg in ALL_CFGS:
+            for cfg in ALL_CFGS + MP_EXTRA_CFGS:
                 if cfg['cas'] == 'list' and (not fully_populated(args) or rng.random() < 0.5):
                     continue
                 bk = cfg['proto'].startswith('msgpack')
@@ -2476,7 +2566,7 @@ def part_c04(ctx):
                 for doc, tag in muts:
                     try:
                         data = dump(cfg['proto'], doc)
-                        parsed = load(cfg['proto'], data)
+                        parsed = load_as_server(cfg, data)
                     except Exception:
                         continue
                     body, ok = request_body(cfg, parsed)
@@ -2496,11 +2586,77 @@ def part_c04(ctx):
                                     {'op': 'request', 'cfg': cfg, 'ty': c.in_ty, 'reg': c.U.registry(), 'doc': doc_to_json(doc),
                                      'observed': r['outcome'], 'leak': r.get('leak')})
     B_mut.run('hier.request-retagged')
+    part_c04_leaves(ctx)
     part_c04_file(ctx)
     ctx.cov['c04_hier_rule'] = ('valid requests of generated signatures with inheritance x 32 configurations, each retagged with '
                                 'class names of the interface at every wrapper position and mutated by kind swaps; the oracle '
                                 'walks the captured argument tree (isinstance of the declared native type / class / subclass)')
     ctx.cov['c04_hier_leaks_under_soft'] = nleak
+
+
+def part_c04_leaves(ctx):
+    """every leaf kind x every foreign document kind x the soft-validating configurations incl. the MessagePack
+    constructor matrix (raw, use_bin_type), at an argument, an array item and a nested member"""
+    rng = ctx.rng
+    B_leaf = Batch(ctx)
+    nleak = 0
+    cfgs = [c for c in ALL_CFGS + MP_EXTRA_CFGS if c['validator'] == 'soft' and c['cas'] == 'dict']
+    for kind in LEAF_KINDS:
+        lt = gen_leaf(rng, kind, occ(), facets=False)
+        box = {'name': 'Box', 'ns': TNS, 'base': None, 'fields': [['v', lt]]}
+        B = Builder()
+        B.register([box])
+        B.universe_fields = {'Box': box['fields']}
+        sig = {'args': [['a', lt], ['arr', {'k': 'arr', 'member': 'm', 'elem': lt, 'occ': occ()}], ['box', dict(box, k='obj', occ=occ())]],
+               'ret': {'k': 'int', 'occ': occ()}}
+        impl = Impl(B, sig)
+        in_ty = impl.in_ty()
+
+        class _U:
+            classes, by_name = [box], {'Box': box}
+
+            def registry(self):
+                return [box]
+        U = _U()
+        for cfg in cfgs:
+            mp = cfg['proto'].startswith('msgpack')
+            K = (lambda n: n.encode('utf8')) if mp else (lambda n: n)
+            good = [gen_one(rng, lt, U, 0.0) for _ in range(3)]
+            args = {'o': ['f', [['a', good[0]], ['arr', {'l': [good[1]]}], ['box', {'o': ['Box', [['v', good[2]]]]}]]]}
+            doc0 = ref_request(cfg, 'f', in_ty, args, U, bytes_keys=mp)
+            root = (3,) if cfg['proto'] == 'msgpackrpc' else (K('f'),)
+            if cfg['proto'] == 'msgpackrpc' and not cfg['iw']:
+                root += (K('f'),)
+            places = [root + (K('a'),), root + (K('arr'), 0), root + (K('box'),) + (() if cfg['iw'] else (K('Box'),)) + (K('v'),)]
+            pool = ['x', '', '1', 5, 0, 1, 2.5, 1.0, True, [1], [], {K('a'): 1}, {}, b'abc' if cfg['proto'] != 'json' else 'abc',
+                    b'\xff\xfe' if cfg['proto'] != 'json' else '\ud7ff']
+            for w in pool:
+                place = rng.choice(places)
+                try:
+                    doc = set_at(deep(doc0), place, w)
+                    data = dump(cfg['proto'], doc)
+                    parsed = load_as_server(cfg, data)
+                except Exception:
+                    continue
+                r = impl.run(cfg, data)
+                kindo = next(iter(r['outcome']))
+                fam = 'msgpack' if mp else cfg['proto']
+                ctx.case({'c04leaf': cfg_key(cfg), 'kind': kind, 'doc': doc_to_json(parsed)}, True)
+                ctx.hit('c04:leaf:%s:%s:%s' % (kind, type(w).__name__, kindo))
+                body, ok = request_body(cfg, parsed)
+                if ok and modelled_doc(body, in_ty) and spyne_parses(cfg, data):
+                    B_leaf.add({'op': 'request', 'cfg': cfg, 'reg': [box], 'ty': in_ty, 'doc': doc_to_json(body)}, r['outcome'])
+                if kindo == 'leak':
+                    nleak += 1
+                    opts = '' if mp_opts(cfg) == (False, True) else ':raw=%s,use_bin_type=%s' % mp_opts(cfg)
+                    ctx.finding('c04:leak:%s%s:%s' % (fam, opts, r.get('leak', '?')),
+                                'user code received a node that is not a value of the declared type (%s)' % r.get('leak'),
+                                {'op': 'request', 'cfg': cfg, 'ty': in_ty, 'reg': [box], 'doc': doc_to_json(doc),
+                                 'observed': r['outcome'], 'leak': r.get('leak')})
+    B_leaf.run('hier.request-leaves')
+    ctx.cov['c04_leaf_matrix_leaks_under_soft'] = nleak
+    ctx.cov['c04_leaf_matrix_rule'] = ('9 leaf kinds x 15 foreign document nodes x {argument, array item, nested member} x 14 soft '
+                                       'configurations (4 protocols x wrappers + MessagePack(raw, use_bin_type) in all 4 settings)')
 
 
 # ---- File (outside the shared type universe: T3 on the real pipeline, T2 for the object form through `FileValue`)
@@ -2651,6 +2807,22 @@ def part_c04_file(ctx):
 
 
 # ===================================================================================== C05 (dict-document side)
+STR_EDGES = [('lf', lambda s: s + [10]), ('crlf', lambda s: s + [13, 10]), ('lf2', lambda s: s + [10, 10]), ('lead-sp', lambda s: [32] + s),
+             ('lead-lf', lambda s: [10] + s), ('nul', lambda s: s[:1] + [0] + s[1:]), ('trail-sp', lambda s: s + [32]),
+             ('trail-nul', lambda s: s + [0])]
+
+
+def str_edge(rng, t, s, which=None):
+    """a member of the facet (conformant text) with a line feed / CR LF / blank / NUL around or inside it: what anchoring
+    and length bugs let through (`re.match('(?:p)$', 'abc\\n')` matches). Whether the result conforms is for `conforms` to say."""
+    name, f = which or rng.choice(STR_EDGES)
+    base = list(s)
+    mx = t.get('maxLen')
+    if mx is not None and len(base) >= mx and len(base) > max(t.get('minLen') or 0, (t.get('pattern') or {}).get('min', 0)):
+        base = base[:-1]            # leave room, so that it is not the length facet that rejects
+    return {'s': f(base)}, 'str-edge:' + name
+
+
 def violate(rng, t, v, field=True):
     """one local change that breaks exactly one declared constraint somewhere in the value; None if no change
     applies at the chosen place. Returns (value, what)."""
@@ -2702,7 +2874,10 @@ def violate(rng, t, v, field=True):
             opts.append('values')
         if not opts:
             return None
+        opts += ['edge', 'edge']
         ch = rng.choice(opts)
+        if ch == 'edge':
+            return str_edge(rng, t, s)
         if ch == 'long':
             pool = [c for lo, hi in t['pattern']['ranges'] for c in range(lo, hi + 1)] if t.get('pattern') else [120]
             return {'s': s + [rng.choice(pool)] * (t['maxLen'] + 1 - len(s))}, 'max_len'
@@ -2792,8 +2967,9 @@ def c05_verdicts(ctx, c, args, what, B_req, B_conf):
     B_conf.add({'op': 'conforms', 'ty': c.in_ty, 'val': args}, {'ok': expected})
     verdicts = {}
     binok = only_kinds(c.in_ty, ('int', 'bool', 'str', 'bytes'))
-    for cfg0 in C05_CFGS + ([dict(x, _bin=True) for x in C05_CFGS if x['proto'].startswith('msgpack')] if binok else []):
-        cfg = {k: v for k, v in cfg0.items() if k != '_bin'}
+    extra = [dict(x, _extra=True) for x in MP_EXTRA_CFGS if x['validator'] == 'soft']
+    for cfg0 in C05_CFGS + extra + ([dict(x, _bin=True) for x in C05_CFGS + extra if x['proto'].startswith('msgpack')] if binok else []):
+        cfg = {k: v for k, v in cfg0.items() if k not in ('_bin', '_extra')}
         doc = ref_request(cfg, 'f', c.in_ty, args, c.U, bytes_keys=cfg['proto'].startswith('msgpack'))
         if cfg0.get('_bin'):
             # text as bin, the way MessagePackDocument writes it (method name of msgpack-rpc stays text)
@@ -2803,11 +2979,24 @@ def c05_verdicts(ctx, c, args, what, B_req, B_conf):
         except Exception:
             continue
         r = c.impl.run(cfg, data)
-        parsed = load(cfg['proto'], data)
+        parsed = load_as_server(cfg, data)
         body, _ = request_body(cfg, parsed)
         B_req.add(c.query('request', cfg, ty=c.in_ty, doc=doc_to_json(body)), r['outcome'])
         kind = next(iter(r['outcome']))
         accepted = kind in ('ok', 'leak')
+        if cfg0.get('_extra'):
+            # non-default (raw, use_bin_type): what such a server can read at all differs (raw=True hands MessagePackRpc
+            # every str as bytes; only the from_bytes table reads dates from bytes), so only one direction is judged here:
+            # nothing non-conformant is accepted. T2 compares every outcome.
+            ctx.case({'c05': cfg_key(cfg), 'bin': bool(cfg0.get('_bin')), 'ty': c.in_ty, 'args': args})
+            ctx.hit('c05:mp-options:%s:%s' % ('conf' if expected else 'nonconf', kind))
+            if accepted and not expected:
+                ctx.finding('c05:accepted-nonconformant:%s:msgpack-options' % (what or 'conformant'),
+                            'soft validation of a MessagePack protocol constructed with raw=%s, use_bin_type=%s accepts a value that '
+                            'violates the declared constraints (%s)' % (cfg['raw'], cfg['bin'], what),
+                            {'op': 'request', 'cfg': cfg, 'ty': c.in_ty, 'reg': c.U.registry(), 'args': args,
+                             'doc': doc_to_json(doc), 'observed': r['outcome'], 'expected_conforms': expected})
+            continue
         verdicts[cfg_key(cfg) + (bool(cfg0.get('_bin')),)] = accepted
         ctx.case({'c05': cfg_key(cfg), 'bin': bool(cfg0.get('_bin')), 'ty': c.in_ty, 'args': args})
         ctx.hit('c05:%s:%s:%s' % (what or 'conformant', 'conf' if expected else 'nonconf', kind))
@@ -2865,11 +3054,146 @@ def part_c05(ctx):
             v = {'l': [{'i': str(j)} for j in range(n)]}
             c05_verdicts(ctx, c, {'o': ['f', [['m', v]]]}, 'occurs', B_req, B_conf)
         c05_verdicts(ctx, c, {'o': ['f', [['m', None]]]}, 'occurs', B_req, B_conf)
+    # ---- every Unicode facet x every edge form of a member (systematic; the random violations above draw from the same set)
+    str_types = [dict(STR_PLAIN, pattern={'ranges': [[97, 122]], 'min': 1, 'max': None}),
+                 dict(STR_PLAIN, pattern={'ranges': [[97, 99], [95, 95]], 'min': 0, 'max': 4}),
+                 dict(STR_PLAIN, pattern={'ranges': [[97, 122]], 'min': 1, 'max': None}, maxLen=5),
+                 dict(STR_PLAIN, values=[cps('abc'), cps('b')]),
+                 dict(STR_PLAIN, minLen=1, maxLen=4),
+                 dict(STR_PLAIN, minLen=3, maxLen=None)]
+    for st in str_types:
+        c = FixedCase([['s', dict(st, occ=occ(False, 1, 1))]])
+        for member in (cps('abc'), cps('b')):
+            c05_verdicts(ctx, c, {'o': ['f', [['s', {'s': member}]]]}, None, B_req, B_conf)
+            for e in STR_EDGES:
+                v, what = str_edge(rng, st, member, e)
+                c05_verdicts(ctx, c, {'o': ['f', [['s', v]]]}, what, B_req, B_conf)
     B_req.run('hier.request-c05')
     B_conf.run('hier.conforms')
+    part_c05_ranges(ctx)
     ctx.cov['c05_hier_rule'] = ('conformant values and single-facet violations (range, length, pattern, enumeration, occurrence, '
                                 'nullability, lexical form) at every nesting position x json/yaml/msgpack/msgpack-rpc x wrapper modes, '
                                 'soft validation; oracle = python re-statement of `conforms`, diffed against the Lean definition')
+
+
+# ---- range facets of Date / Time / DateTime / Decimal / Double: T3 only, outside the Lean universe
+def _instant(a):
+    """UTC instant of a `dt` value [y, m, d, h, mi, s, us, tz-minutes | None]; naive = LOCAL_TZ = UTC"""
+    return pydt.datetime(*a[:7]) - pydt.timedelta(minutes=a[7] or 0)
+
+
+def _dt_at(instant, tz):
+    """the `dt` value for the UTC instant, written with the given offset (None = naive)"""
+    loc = instant + pydt.timedelta(minutes=tz or 0)
+    return {'dt': [loc.year, loc.month, loc.day, loc.hour, loc.minute, loc.second, loc.microsecond, tz]}
+
+
+def range_key(k, v):
+    if k == 'date':
+        return tuple(v['date'])
+    if k == 'time':
+        return tuple(v['time'])
+    if k == 'dt':
+        return _instant(v['dt'])
+    if k == 'dec':
+        return decimal.Decimal(v['dec'])
+    return float(v['dbl'])
+
+
+def range_ok(t, v):
+    """the meaning of ge / gt / le / lt: comparison of dates, times of day, INSTANTS, numbers"""
+    x = range_key(t['k'], v)
+    for f, b in (t.get('rng') or {}).items():
+        y = range_key(t['k'], b)
+        if not {'ge': x >= y, 'gt': x > y, 'le': x <= y, 'lt': x < y}[f]:
+            return False
+    return True
+
+
+def _around(k, b, rng):
+    """values on / just inside / just outside the bound `b`"""
+    if k == 'date':
+        d0 = pydt.date(*b['date'])
+        return [{'date': [d.year, d.month, d.day]} for d in (d0 + pydt.timedelta(days=n) for n in (-400, -1, 0, 1, 31))]
+    if k == 'time':
+        t0 = pydt.datetime(2000, 1, 1, *b['time'])
+        out = []
+        for us in (-3600 * 10 ** 6, -10 ** 6, -1, 0, 1, 10 ** 6, 3600 * 10 ** 6):
+            x = t0 + pydt.timedelta(microseconds=us)
+            if x.date() == t0.date():
+                out.append({'time': [x.hour, x.minute, x.second, x.microsecond]})
+        return out
+    if k == 'dt':
+        i0 = _instant(b['dt'])
+        out = []
+        for us in (-86400 * 10 ** 6, -1800 * 10 ** 6, -10 ** 6, -1, 0, 1, 10 ** 6, 1800 * 10 ** 6, 86400 * 10 ** 6):
+            for tz in rng.sample([None, 0, 300, -300, 60, -60, 840, -720, 330], 4):
+                out.append(_dt_at(i0 + pydt.timedelta(microseconds=us), tz))
+        return out
+    if k == 'dec':
+        d0 = decimal.Decimal(b['dec'])
+        return [{'dec': str(d0 + decimal.Decimal(x))} for x in ('-1', '-0.001', '0', '0.001', '1', '1E+20')]
+    f0 = float(b['dbl'])
+    return [{'dbl': repr(x)} for x in (f0 - 1.0, f0 - 1e-9 * max(1.0, abs(f0)), f0, f0 + 1e-9 * max(1.0, abs(f0)), f0 + 1.0)]
+
+
+def part_c05_ranges(ctx):
+    """ge / gt / le / lt on Date, Time, DateTime, Decimal, Double (the shared PrimTy has range facets for integers only):
+    soft verdict vs `range_ok` on / just inside / just outside every bound; DateTime bounds and values are instants written
+    with assorted UTC offsets (and naive = UTC). (Duration declares no range facets in spyne.)"""
+    rng = ctx.rng
+    bases = {'date': [{'date': [2020, 1, 1]}, {'date': [2024, 2, 29]}],
+             'time': [{'time': [12, 0, 0, 0]}, {'time': [23, 59, 59, 0]}, {'time': [0, 0, 1, 0]}],
+             'dt': [{'dt': [2020, 1, 1, 0, 0, 0, 0, 0]}, {'dt': [2021, 6, 30, 23, 30, 0, 0, 300]}, {'dt': [2019, 12, 31, 22, 0, 0, 500000, -120]}],
+             'dec': [{'dec': '0'}, {'dec': '10.5'}, {'dec': '-1E+3'}],
+             'dbl': [{'dbl': '0.0'}, {'dbl': '2.5'}, {'dbl': '-1000.0'}]}
+    n = nbad = 0
+    for k in ('date', 'time', 'dt', 'dec', 'dbl'):
+        for b in bases[k]:
+            for facets in (('ge',), ('gt',), ('le',), ('lt',), ('ge', 'lt'), ('gt', 'le')):
+                if len(facets) == 2:
+                    hi = _around(k, b, rng)[-1]
+                    if k == 'dt' and hi['dt'][7] is None:
+                        # bounds are declared as aware datetimes (like spyne's own defaults): an aware value cannot be
+                        # compared with a naive bound at all
+                        hi = _dt_at(_instant(hi['dt']), 0)
+                    t = {'k': k, 'occ': occ(False, 1, 1), 'rng': {facets[0]: b, facets[1]: hi}}
+                    vals = _around(k, b, rng) + _around(k, hi, rng)
+                else:
+                    t = {'k': k, 'occ': occ(False, 1, 1), 'rng': {facets[0]: b}}
+                    vals = _around(k, b, rng)
+                try:
+                    c = FixedCase([['v', t]])
+                    c.impl.server(CFG_DEFAULT)
+                except (ValueError, AssertionError, TypeError):
+                    ctx.hit('c05:range:type-refused:' + k)
+                    continue
+                for v in vals:
+                    expected = range_ok(t, v)
+                    args = {'o': ['f', [['v', v]]]}
+                    for cfg in C05_CFGS:
+                        doc = ref_request(cfg, 'f', c.in_ty, args, None, bytes_keys=cfg['proto'].startswith('msgpack'))
+                        r = c.impl.run(cfg, dump(cfg['proto'], doc))
+                        kind = next(iter(r['outcome']))
+                        n += 1
+                        ctx.case({'c05range': cfg_key(cfg), 'ty': t, 'v': v}, True)
+                        ctx.hit('c05:range:%s:%s:%s' % (k, 'in' if expected else 'out', kind))
+                        if kind == 'crash':
+                            continue
+                        accepted = kind in ('ok', 'leak')
+                        if accepted != expected:
+                            nbad += 1
+                            fam = 'msgpack' if cfg['proto'].startswith('msgpack') else cfg['proto']
+                            ctx.finding('c05:%s:range:%s:%s' % ('accepted-nonconformant' if accepted else 'rejected-conformant', k, fam),
+                                        'soft validation verdict differs from the declared %s bound(s) of a %s member'
+                                        % ('/'.join(facets), {'dt': 'DateTime (compared as instants)', 'date': 'Date', 'time': 'Time',
+                                                              'dec': 'Decimal', 'dbl': 'Double'}[k]),
+                                        {'op': 'range', 'cfg': cfg, 'ty': t, 'value': v, 'expected_conforms': expected,
+                                         'observed': r['outcome'], 'doc': doc_to_json(doc)})
+    ctx.cov['c05_range_facets_T3_only'] = n
+    ctx.cov['c05_range_rule'] = ('Date / Time / DateTime / Decimal / Double x ge, gt, le, lt (single and paired) x values on, just inside and '
+                                 'just outside each bound; DateTime as instants with offsets None/0/+-60/+-300/+330/+840/-720; 8 soft '
+                                 'configurations; oracle = python comparison of dates / times / instants / numbers (T3 only)')
 
 
 class FixedCase:
@@ -2947,9 +3271,27 @@ def part_c16(ctx):
     """C16: class trees of depth <= 3, subclass instances where the base is declared (single values and arrays with
     mixed classes), polymorphic on/off, wrappers kept; T3 = class and member values at both ends; T2 = model."""
     load_known(ctx)
+    poly_cases(ctx, 'c16', 100 if ctx.thorough else 24)
+    ctx.cov['c16_hier_rule'] = POLY_RULE
+
+
+POLY_RULE = ('class trees of depth <= 3 in one namespace; subclass instances in every kind of declared-base position: plain Base, '
+             'customized Base (Base.customize(min_occurs=1), Mandatory: nillable=False, min_occurs=1), the item type of Array(Base) '
+             '(a customized Base), a repeated Base member, as arguments / results and as members of a holder object, arrays freely '
+             'mixed; polymorphic on/off x json/yaml/msgpack/msgpack-rpc x validator, ignore_wrappers=False; oracle = class and member '
+             'values at both ends')
+
+
+def part_poly(ctx):
+    """the polymorphic round trips as part of C02 (wire fidelity for `polymorphic=True`)"""
+    poly_cases(ctx, 'poly', 36 if ctx.thorough else 10)
+    ctx.cov['poly_rule'] = POLY_RULE
+
+
+def poly_cases(ctx, pre, ncases):
     rng = ctx.rng
     B_req, B_resp = Batch(ctx), Batch(ctx)
-    for ci in range(100 if ctx.thorough else 24):
+    for ci in range(ncases):
         for _ in range(20):
             U = Universe(rng, nclasses=rng.choice([3, 4, 5]), depth=2, inherit=True, facets=False)
             roots = [cd for cd in U.classes if U.subclasses(cd['name'])]
@@ -2957,16 +3299,27 @@ def part_c16(ctx):
                 break
         else:
             continue
+        base = rng.choice(roots)
+        # the declared type is the class itself or a customized variant of it (`cls.__orig__` is the class the model
+        # names in `Ty.obj`: `polyTarget` compares the instance's class with that name)
+        bt = U.obj_ty(base, occ())
+        mand = U.obj_ty(base, occ(False, 1, 1))                     # Mandatory(Base)
+        cust = U.obj_ty(base, occ(True, 1, 1))                      # Base.customize(min_occurs=1)
+        arr = {'k': 'arr', 'member': 'm', 'elem': U.obj_ty(base, occ(False, 0, 1)), 'occ': occ()}      # Array(Base)
+        rep = U.obj_ty(base, occ(True, 0, None))                    # Base.customize(max_occurs='unbounded')
+        holder = {'name': 'Holder', 'ns': TNS, 'base': None,
+                  'fields': [['h0_plain', bt], ['h1_mand', mand], ['h2_many', arr], ['h3_rep', rep]]}
+        U.classes.append(holder)
+        U.by_name['Holder'] = holder
+        ht = U.obj_ty(holder, occ())
         B = Builder()
         try:
             B.register(U.classes)
         except ValueError:
             continue
         B.universe_fields = {c['name']: c['fields'] for c in U.classes}
-        base = rng.choice(roots)
-        bt = U.obj_ty(base, occ())
-        arr = {'k': 'arr', 'member': 'm', 'elem': U.obj_ty(base, occ(False, 0, 1)), 'occ': occ()}
-        sig = {'args': [['one', bt], ['many', arr]], 'ret': arr if rng.random() < 0.5 else bt}
+        ret = rng.choice([arr, bt, mand, cust, ht, ht])
+        sig = {'args': [['cust', cust], ['hold', ht], ['many', arr], ['one', bt]], 'ret': ret}
         try:
             impl = Impl(B, sig)
             impl.server(CFG_DEFAULT)
@@ -2978,19 +3331,25 @@ def part_c16(ctx):
             if cd['base']:
                 bf = U.by_name[cd['base']]['fields']
                 real = list(B.classes[cd['name']].get_flat_type_info(B.classes[cd['name']]).keys())
-                ctx.case({'c16-flat': cd['name'], 'fields': real})
+                ctx.case({pre + '-flat': cd['name'], 'fields': real})
                 if real != [n for n, _ in cd['fields']] or real[:len(bf)] != [n for n, _ in bf]:
-                    ctx.finding('c16:flat-type-info-order', 'get_flat_type_info does not list the ancestors\' members first',
+                    ctx.finding(pre + ':flat-type-info-order', 'get_flat_type_info does not list the ancestors\' members first',
                                 {'op': 'flat', 'class': cd['name'], 'real': real, 'expected': [n for n, _ in cd['fields']]})
         for vi in range(4):
             try:
-                one = gen_poly_value(rng, bt, U)
-                many = {'l': [gen_poly_value(rng, bt, U) for _ in range(rng.choice([0, 1, 2, 3]))]}
+                pv = lambda: gen_poly_value(rng, bt, U)
+                lst = lambda: {'l': [pv() for _ in range(rng.choice([0, 1, 2, 3]))]}
+                one, cu, many = pv(), pv(), lst()
+                hold = {'o': ['Holder', [['h0_plain', pv() if rng.random() < 0.8 else None], ['h1_mand', pv()],
+                                         ['h2_many', lst() if rng.random() < 0.85 else None],
+                                         ['h3_rep', lst() if rng.random() < 0.85 else None]]]}
             except Unsat:
                 continue
-            args = {'o': ['f', [['one', one], ['many', many]]]}
-            rv = many if sig['ret']['k'] == 'arr' else one
-            nat = B.to_native(sig['ret'], rv)
+            if None in (one, cu) or hold['o'][1][1][1] is None:
+                continue
+            args = {'o': ['f', [['cust', cu], ['hold', hold], ['many', many], ['one', one]]]}
+            rv = many if ret is arr else hold if ret is ht else one
+            nat = B.to_native(ret, rv)
             for proto in PROTOS:
                 for poly in (True, False):
                     for validator in (None, 'soft'):
@@ -3001,47 +3360,45 @@ def part_c16(ctx):
                         r = impl.run(cfg, data, ret=nat)
                         body, _ = request_body(cfg, load(proto, data))
                         B_req.add({'op': 'request', 'cfg': cfg, 'reg': U.registry(), 'ty': in_ty, 'doc': doc_to_json(body)}, r['outcome'])
-                        ctx.case({'c16': cfg_key(cfg), 'args': args}, True)
-                        ctx.hit('c16:request:%s:poly=%s:%s' % (fam, poly, next(iter(r['outcome']))))
+                        ctx.case({pre: cfg_key(cfg), 'args': args}, True)
+                        ctx.hit('%s:request:%s:poly=%s:%s' % (pre, fam, poly, next(iter(r['outcome']))))
                         # the receiver reconstructs the same subclass (wrapper keys select the class with or without
                         # the polymorphic flag: it only governs what is written)
                         if r['outcome'] != {'ok': args}:
                             if 'crash' in r['outcome'] or 'leak' in r['outcome'] or 'fault' in r['outcome']:
-                                ctx.finding('c16:request:%s:%s' % (fam, next(iter(r['outcome']))),
+                                ctx.finding('%s:request:%s:%s' % (pre, fam, next(iter(r['outcome']))),
                                             'a subclass instance sent where the base is declared is not received as that subclass',
                                             {'op': 'request', 'cfg': cfg, 'ty': in_ty, 'reg': U.registry(), 'args': args,
                                              'doc': doc_to_json(doc), 'observed': r['outcome'], 'where': r.get('where')})
                             else:
-                                ctx.finding('c16:request-class-lost:%s' % fam, 'the received instances differ in class or members',
+                                ctx.finding('%s:request-class-lost:%s' % (pre, fam), 'the received instances differ in class or members',
                                             {'op': 'request', 'cfg': cfg, 'ty': in_ty, 'reg': U.registry(), 'args': args,
                                              'doc': doc_to_json(doc), 'observed': r['outcome']})
                             continue
                         if r.get('resp_crash') or r['out'] is None:
-                            ctx.finding('c16:response-crash:%s' % fam, 'the subclass instance cannot be serialized: %s' % r.get('where'),
-                                        {'op': 'response', 'cfg': cfg, 'ty': sig['ret'], 'reg': U.registry(), 'returned': rv})
+                            ctx.finding('%s:response-crash:%s' % (pre, fam), 'the subclass instance cannot be serialized: %s' % r.get('where'),
+                                        {'op': 'response', 'cfg': cfg, 'ty': ret, 'reg': U.registry(), 'returned': rv})
                             continue
                         out = load(proto, r['out'])
-                        B_resp.add({'op': 'response', 'cfg': cfg, 'reg': U.registry(), 'ty': sig['ret'], 'val': rv, 'method': 'f'},
+                        B_resp.add({'op': 'response', 'cfg': cfg, 'reg': U.registry(), 'ty': ret, 'val': rv, 'method': 'f'},
                                    {'ok': doc_to_json(out)})
                         try:
-                            back = ref_response(cfg, 'f', sig['ret'], out, U)
+                            back = ref_response(cfg, 'f', ret, out, U)
                         except (RefError, ValueError) as e:
                             back = repr(e)
-                        expect = rv if poly else strip_to_declared(sig['ret'], rv, U)
-                        ctx.hit('c16:response:%s:poly=%s:%s' % (fam, poly, 'same' if back == expect else 'differs'))
+                        expect = rv if poly else strip_to_declared(ret, rv, U)
+                        ctx.hit('%s:response:%s:poly=%s:%s' % (pre, fam, poly, 'same' if back == expect else 'differs'))
                         if back != expect and none_among_objects(rv):
-                            ctx.hit('c16:skipped:none-item-written-as-empty-object(C02 known finding)')
+                            ctx.hit(pre + ':skipped:none-item-written-as-empty-object(C02 known finding)')
                         elif back != expect:
-                            ctx.finding('c16:response:%s:poly=%s' % (fam, poly),
+                            kind = 'array' if ret is arr else 'holder' if ret is ht else 'customized' if ret in (mand, cust) else 'plain'
+                            ctx.finding('%s:response:%s:%s:poly=%s' % (pre, kind, fam, poly),
                                         'polymorphic response does not carry the runtime class and its members' if poly else
                                         'non-polymorphic response does not carry exactly the declared members',
-                                        {'op': 'response', 'cfg': cfg, 'ty': sig['ret'], 'reg': U.registry(), 'returned': rv,
+                                        {'op': 'response', 'cfg': cfg, 'ty': ret, 'reg': U.registry(), 'returned': rv,
                                          'decoded': back, 'expected': expect, 'response_doc': doc_to_json(out)})
-    B_req.run('hier.request-c16')
-    B_resp.run('hier.response-c16')
-    ctx.cov['c16_hier_rule'] = ('class trees of depth <= 3 in one namespace, a base-typed parameter and an array of the base type holding '
-                                'mixed base / subclass instances, polymorphic on/off x json/yaml/msgpack/msgpack-rpc x validator, '
-                                'ignore_wrappers=False; oracle = class and member values at both ends')
+    B_req.run('hier.request-' + pre)
+    B_resp.run('hier.response-' + pre)
 
 
 def strip_to_declared(t, v, U):
@@ -3054,7 +3411,7 @@ def strip_to_declared(t, v, U):
         n = len(t['fields'])
         return {'o': [t['name'], [[fn, strip_to_declared(ft, fv, U)] for (fn, ft), (_, fv) in zip(t['fields'], v['o'][1][:n])]]}
     if is_rep(t.get('occ') or occ()) and 'l' in v:
-        return v
+        return {'l': [strip_to_declared(t, x, U) for x in v['l']]}
     return v
 
 
